@@ -22,6 +22,15 @@ def accepts (rejectsAbove : Bool) (limit sz : Nat) : Bool := !(rejectsAbove && d
 /-- can a chunk reader whose buffer has `mrs` bytes serve a record of `sz` bytes? -/
 def readable (mrs sz : Nat) : Bool := decide (sz ≤ mrs)
 
+/-- the validation loop over the events of a packet, each given as (fields text, record size). `everyEvent = false` is the loop that
+memoises the previous event's fields text and skips the rest of its body — the size test included — for an event with the same text
+(`last = none` before the first event). The packet is accepted when no visited event is refused. -/
+def packetAccepts (everyEvent rejectsAbove : Bool) (limit : Nat) : Option Bytes → List (Bytes × Nat) → Bool
+  | _, [] => true
+  | last, (txt, sz) :: rest =>
+    if !everyEvent && last == some txt then packetAccepts everyEvent rejectsAbove limit last rest
+    else accepts rejectsAbove limit sz && packetAccepts everyEvent rejectsAbove limit (some txt) rest
+
 /-- what the holder of a string decoded from a request reads after the NEXT request (a text of the same length) has arrived -/
 def heldText (weak collects : Bool) (decoded next : Bytes) : Bytes := if weak && collects then next else decoded
 
